@@ -152,6 +152,8 @@ def obligations():
         obs.append(Ob('O19.3-inj-spell-%d-%d' % (la, lb), 'go_ident injective: long name vs short name over %r' % A2, ob_injective, ('quick', 'thorough') if la == 5 and lb == 1 else ('thorough',), 10, dict(la=la, lb=lb, alphabet=A2)))
     for la, lb in ((2, 2), (5, 1), (5, 2)):
         obs.append(Ob('O19.3-inj-prefix-%d-%d' % (la, lb), 'go_ident injective: `_goml_`+suffix vs short name over %r' % A2, ob_injective, ('quick', 'thorough') if (la, lb) != (5, 2) else ('thorough',), 10, dict(la=la, lb=lb, alphabet=A2, prefix_a='_goml_')))
+    from props import enc_ob
+    obs += enc_ob.obligations('O19.4-encode_ty')
     return obs
 
 META = {
